@@ -28,7 +28,7 @@ Section Parse.
     && forallb (atom_ok v (v_preds v) objs) (sp_facts sp)
     && forallb (fluent_ok objs) (sp_fluents sp)
     && forallb (atom_ok v (v_preds v) objs) (sp_goal sp)
-    && forallb (fun g => match g with (_, l, r) => shape_ok (d_funcs dom) l && shape_ok (d_funcs dom) r end) (sp_goal_num sp).
+    && forallb (fun g => match g with (_, l, r) => code_ok (d_funcs dom) l && code_ok (d_funcs dom) r end) (sp_goal_num sp).
 
   (* ---------- what the code builds ---------- *)
   Definition value_of (tok : string) : float := match num tok with Some x => x | None => 0%float end.
@@ -81,7 +81,7 @@ Section Parse.
   Lemma fold_goal_closed gs : forall pb,
     fold_opt (step_goal dom) gs pb =
     if forallb (atom_ok v (v_preds v) (pb_objects pb)) (lefts gs)
-       && forallb (fun g => match g with (_, l, r) => shape_ok (d_funcs dom) l && shape_ok (d_funcs dom) r end) (rights gs)
+       && forallb (fun g => match g with (_, l, r) => code_ok (d_funcs dom) l && code_ok (d_funcs dom) r end) (rights gs)
     then Some (with_goal pb (pb_goal pb ++ lefts gs) (pb_goal_num pb ++ map goal_tree (rights gs)))
     else None.
   Proof.
@@ -92,7 +92,7 @@ Section Parse.
         destruct (atom_ok v (v_preds v) (pb_objects pb) (p, args)); cbn [andb]; [|reflexivity].
         rewrite IH. destruct pb. cbn. rewrite <- app_assoc. reflexivity.
       + rewrite lefts_cons_inr, rights_cons_inr. cbn [step_goal forallb].
-        destruct (shape_ok (d_funcs dom) l && shape_ok (d_funcs dom) r); cbn [andb].
+        destruct (code_ok (d_funcs dom) l && code_ok (d_funcs dom) r); cbn [andb].
         * rewrite IH. destruct pb. cbn. rewrite <- app_assoc. reflexivity.
         * rewrite andb_false_r. reflexivity.
   Qed.
@@ -195,7 +195,7 @@ Section Parse.
                      (after_objects n os))
               (if forallb (atom_ok v (v_preds v) os) (sp_facts sp') && forallb (fluent_ok os) (sp_fluents sp')
                   && (forallb (atom_ok v (v_preds v) os) (sp_goal sp')
-                      && forallb (fun g => match g with (_, l, r) => shape_ok (d_funcs dom) l && shape_ok (d_funcs dom) r end)
+                      && forallb (fun g => match g with (_, l, r) => code_ok (d_funcs dom) l && code_ok (d_funcs dom) r end)
                                  (sp_goal_num sp'))
                then Some (built sp') else None)).
     { intros os items gitems tail its gs Hits Hgs Htail sp'.
@@ -207,7 +207,7 @@ Section Parse.
       cbn [after_objects with_objects with_name pb_objects pb_facts pb_fluents pb_goal pb_goal_num pb_name empty_problem
            with_fluents with_facts with_goal app].
       destruct (forallb (atom_ok v (v_preds v) os) (lefts gs)
-                && forallb (fun g => match g with (_, l, r) => shape_ok (d_funcs dom) l && shape_ok (d_funcs dom) r end) (rights gs));
+                && forallb (fun g => match g with (_, l, r) => code_ok (d_funcs dom) l && code_ok (d_funcs dom) r end) (rights gs));
         reflexivity. }
     (* with or without an (:objects ...) section *)
     destruct rest as [|s1 rest1]; [discriminate|].
